@@ -16,6 +16,7 @@ import MitmVerif.Model.C40
 import MitmVerif.Model.C40_Http
 import MitmVerif.Model.C31
 import MitmVerif.Model.C40_Obj
+import MitmVerif.Model.C40_Obj2
 namespace MitmVerif.Props.C40
 open MitmVerif.C40
 
@@ -1324,6 +1325,226 @@ theorem obj_edits_simulate (es : List MsgEdit) :
     simp only [applyObjs, List.foldl_cons] at this ⊢
     rw [this, a1]
 
+-- ---------------------------------------------------------------- generic object layer (Model/C40_Obj2.lean)
+section GenericObjects
+variable {I I2 SV : Type}
+
+/-- the sub-objects of an object are allocated and pairwise distinct -/
+def WfG (h : GHeap SV) (o : GObj I) : Prop := o.subs.Nodup ∧ ∀ a ∈ o.subs, a < h.next
+
+/-- two objects share no sub-object -/
+def DisjG (o1 : GObj I) (o2 : GObj I2) : Prop := ∀ a ∈ o1.subs, a ∉ o2.subs
+
+/-- **one edit of an object graph.** The object's get_state() changes exactly as the value-level edit says; the
+    object stays well formed; cells of sub-objects it does not own are untouched; new sub-objects are NEW. -/
+theorem gobj_edit_simulates (e : GEdit I SV) (h : GHeap SV) (o : GObj I) (hw : WfG h o) :
+    (applyG e h o).2.getState (applyG e h o).1 = e.applyV (o.getState h) ∧
+    WfG (applyG e h o).1 (applyG e h o).2 ∧ h.next ≤ (applyG e h o).1.next ∧
+    (∀ a, a < h.next → a ∉ o.subs → (applyG e h o).1.cells a = h.cells a) ∧
+    (∀ a ∈ (applyG e h o).2.subs, a ∈ o.subs ∨ h.next ≤ a) := by
+  obtain ⟨hnd, hlt⟩ := hw
+  have hfresh : h.next ∉ o.subs := fun hm => Nat.lt_irrefl _ (hlt _ hm)
+  cases e with
+  | imm g => exact ⟨rfl, ⟨hnd, hlt⟩, Nat.le_refl _, fun _ _ _ => rfl, fun a ha => Or.inl ha⟩
+  | inPlace j g =>
+    simp only [applyG]
+    cases hj : o.subs[j]? with
+    | none =>
+      refine ⟨?_, ⟨hnd, hlt⟩, Nat.le_refl _, fun _ _ _ => rfl, fun a ha => Or.inl ha⟩
+      simp [GObj.getState, GEdit.applyV, List.getElem?_map, hj]
+    | some ad =>
+      have hmem : ad ∈ o.subs := List.mem_iff_getElem?.mpr ⟨j, hj⟩
+      refine ⟨?_, ⟨hnd, hlt⟩, Nat.le_refl _, ?_, fun a ha => Or.inl ha⟩
+      · simp only [GObj.getState, GEdit.applyV, List.getElem?_map, hj, Option.map_some]
+        rw [map_upd_nodup _ _ _ _ _ hnd hj]
+      · intro a _ ha
+        have : a ≠ ad := fun e' => ha (e' ▸ hmem)
+        simp [upd, this]
+  | rebind j v =>
+    simp only [applyG]
+    cases hj : o.subs[j]? with
+    | none =>
+      refine ⟨?_, ⟨hnd, hlt⟩, Nat.le_refl _, fun _ _ _ => rfl, fun a ha => Or.inl ha⟩
+      have : o.subs.length ≤ j := by
+        rcases Nat.lt_or_ge j o.subs.length with h' | h'
+        · simp [List.getElem?_eq_getElem h'] at hj
+        · exact h'
+      simp only [GObj.getState, GEdit.applyV]
+      rw [List.set_eq_of_length_le]; simp [this]
+    | some ad =>
+      refine ⟨?_, ⟨nodup_set_fresh _ _ _ hnd hfresh, ?_⟩, Nat.le_succ _, ?_, ?_⟩
+      · simp only [GObj.getState, GEdit.applyV, List.map_set]
+        rw [map_upd_not_mem _ _ _ _ hfresh]; simp [upd]
+      · intro a ha
+        rcases List.mem_or_eq_of_mem_set ha with h1 | h1
+        · exact Nat.lt_succ_of_lt (hlt a h1)
+        · rw [h1]; exact Nat.lt_succ_self _
+      · intro a ha _
+        simp [upd, Nat.ne_of_lt ha]
+      · intro a ha
+        rcases List.mem_or_eq_of_mem_set ha with h1 | h1
+        · exact Or.inl h1
+        · right; rw [h1]; exact Nat.le_refl _
+  | append v =>
+    simp only [applyG]
+    refine ⟨?_, ⟨?_, ?_⟩, Nat.le_succ _, ?_, ?_⟩
+    · simp only [GObj.getState, GEdit.applyV, List.map_append, List.map_cons, List.map_nil]
+      rw [map_upd_not_mem _ _ _ _ hfresh]; simp [upd]
+    · rw [List.nodup_append]
+      refine ⟨hnd, by simp, ?_⟩
+      intro a ha b hb
+      simp at hb; subst hb
+      exact Nat.ne_of_lt (hlt a ha)
+    · intro a ha
+      rcases List.mem_append.mp ha with h1 | h1
+      · exact Nat.lt_succ_of_lt (hlt a h1)
+      · simp at h1; rw [h1]; exact Nat.lt_succ_self _
+    · intro a ha _
+      simp [upd, Nat.ne_of_lt ha]
+    · intro a ha
+      rcases List.mem_append.mp ha with h1 | h1
+      · exact Or.inl h1
+      · simp at h1; right; rw [h1]; exact Nat.le_refl _
+  | pop =>
+    simp only [applyG]
+    have hsub := List.dropLast_sublist o.subs
+    refine ⟨?_, ⟨List.Nodup.sublist hsub hnd, fun a ha => hlt a (hsub.subset ha)⟩, Nat.le_refl _, by intros; trivial,
+      fun a ha => Or.inl (hsub.subset ha)⟩
+    simp [GObj.getState, GEdit.applyV, List.map_dropLast]
+  | replace vs =>
+    simp only [applyG, GObj.fromState]
+    refine ⟨?_, ⟨List.nodup_range' 1, ?_⟩, Nat.le_add_right _ _, ?_, ?_⟩
+    · simp only [GObj.getState, GEdit.applyV]
+      rw [alloc_content]
+    · intro a ha; exact (List.mem_range'_1.mp ha).2
+    · intro a ha _
+      have : ¬ h.next ≤ a := Nat.not_le.mpr ha
+      simp [allocHeap, this]
+    · intro a ha; right; exact (List.mem_range'_1.mp ha).1
+
+/-- **no sharing between objects, one edit.** Editing o1 leaves the get_state() of every object o2 (of any class)
+    that shares no sub-object with it unchanged; they still share nothing. -/
+theorem gobj_edit_frame (e : GEdit I SV) (h : GHeap SV) (o1 : GObj I) (o2 : GObj I2) (hw1 : WfG h o1)
+    (hw2 : WfG h o2) (hd : DisjG o1 o2) :
+    o2.getState (applyG e h o1).1 = o2.getState h ∧ WfG (applyG e h o1).1 o2 ∧ DisjG (applyG e h o1).2 o2 := by
+  obtain ⟨_, _, hn, hc, hr⟩ := gobj_edit_simulates e h o1 hw1
+  refine ⟨?_, ⟨hw2.1, fun a ha => Nat.lt_of_lt_of_le (hw2.2 a ha) hn⟩, ?_⟩
+  · simp only [GObj.getState]
+    congr 1
+    apply List.map_congr_left
+    intro a ha
+    exact hc a (hw2.2 a ha) (fun h1 => hd a h1 ha)
+  · intro a ha h2
+    rcases hr a ha with h1 | h1
+    · exact hd a h1 h2
+    · exact Nat.lt_irrefl _ (Nat.lt_of_lt_of_le (hw2.2 a h2) h1)
+
+/-- **from_state builds fresh objects (every component class).** The object built from a state has that state
+    (round trip), consists only of sub-objects allocated by the call, shares nothing with any existing object, and
+    existing objects keep their state. -/
+theorem gobj_fromState_fresh_roundtrip (h : GHeap SV) (s : I × List SV) :
+    (GObj.fromState h s).2.getState (GObj.fromState h s).1 = s ∧ WfG (GObj.fromState h s).1 (GObj.fromState h s).2 ∧
+    (∀ a ∈ (GObj.fromState h s).2.subs, h.next ≤ a) ∧
+    (∀ o2 : GObj I2, WfG h o2 → o2.getState (GObj.fromState h s).1 = o2.getState h ∧
+        WfG (GObj.fromState h s).1 o2 ∧ DisjG (GObj.fromState h s).2 o2) := by
+  obtain ⟨i, vs⟩ := s
+  refine ⟨?_, ⟨List.nodup_range' 1, fun a ha => (List.mem_range'_1.mp ha).2⟩,
+    fun a ha => (List.mem_range'_1.mp ha).1, ?_⟩
+  · simp only [GObj.getState, GObj.fromState]; rw [alloc_content]
+  · intro o2 hw2
+    refine ⟨?_, ⟨hw2.1, fun a ha => Nat.lt_of_lt_of_le (hw2.2 a ha) (Nat.le_add_right _ _)⟩, ?_⟩
+    · simp only [GObj.getState, GObj.fromState]
+      rw [alloc_old _ _ _ _ hw2.2]
+    · intro a ha h2
+      exact Nat.lt_irrefl _ (Nat.lt_of_lt_of_le (hw2.2 a h2) (List.mem_range'_1.mp ha).1)
+
+private theorem applyGs_frame (es : List (GEdit I SV)) :
+    ∀ (h : GHeap SV) (o1 : GObj I) (o2 : GObj I2), WfG h o1 → WfG h o2 → DisjG o1 o2 →
+      o2.getState (applyGs es h o1).1 = o2.getState h ∧ WfG (applyGs es h o1).1 o2 := by
+  induction es with
+  | nil => intro h o1 o2 _ h2 _; exact ⟨rfl, h2⟩
+  | cons e es ih =>
+    intro h o1 o2 h1 h2 hd
+    obtain ⟨f1, f2, f3⟩ := gobj_edit_frame e h o1 o2 h1 h2 hd
+    obtain ⟨_, w1, _⟩ := gobj_edit_simulates e h o1 h1
+    obtain ⟨g1, g2⟩ := ih _ _ o2 w1 f2 f3
+    simp only [applyGs, List.foldl_cons] at g1 g2 ⊢
+    exact ⟨g1.trans f1, g2⟩
+
+/-- **copy independence for every component class, all histories.** Copy an object (get_state → from_state); ANY
+    sequence of edits of the original — in-place mutation of sub-objects, new sub-objects, append/pop, replacing the
+    list — leaves the copy's state equal to the original's state at copy time, and ANY sequence of edits of the copy
+    leaves the original untouched. -/
+theorem gobj_copy_independent (h : GHeap SV) (o : GObj I) (es : List (GEdit I SV)) (hw : WfG h o) :
+    (GObj.copy h o).2.getState (applyGs es (GObj.copy h o).1 o).1 = o.getState h ∧
+    o.getState (applyGs es (GObj.copy h o).1 (GObj.copy h o).2).1 = o.getState h := by
+  obtain ⟨r1, r2, _, r4⟩ := gobj_fromState_fresh_roundtrip (I2 := I) h (o.getState h)
+  obtain ⟨s1, s2, s3⟩ := r4 o hw
+  have hd' : DisjG o (GObj.fromState h (o.getState h)).2 := fun a ha hb => s3 a hb ha
+  refine ⟨?_, ?_⟩
+  · have := (applyGs_frame es _ o _ s2 r2 hd').1
+    simp only [GObj.copy]; rw [this]; exact r1
+  · have := (applyGs_frame es _ _ o r2 s2 s3).1
+    simp only [GObj.copy]; rw [this]; exact s1
+
+/-- an edit history of an object graph is the history of the value-level edits -/
+theorem gobj_edits_simulate (es : List (GEdit I SV)) :
+    ∀ (h : GHeap SV) (o : GObj I), WfG h o →
+      (applyGs es h o).2.getState (applyGs es h o).1 = es.foldl (fun s e => e.applyV s) (o.getState h) := by
+  induction es with
+  | nil => intro h o _; rfl
+  | cons e es ih =>
+    intro h o hw
+    obtain ⟨a1, a2, _⟩ := gobj_edit_simulates e h o hw
+    have := ih _ _ a2
+    simp only [applyGs, List.foldl_cons] at this ⊢
+    rw [this, a1]
+end GenericObjects
+
+private theorem modify_eq_set {α : Type} (f : α → α) : ∀ (l : List α) (i : Nat),
+    l.modify i f = match l[i]? with | some x => l.set i (f x) | none => l := by
+  intro l
+  induction l with
+  | nil => intro i; simp
+  | cons x xs ih =>
+    intro i
+    cases i with
+    | zero => simp
+    | succ i =>
+      simp only [List.modify_succ_cons, List.getElem?_cons_succ, List.set_cons_succ]
+      rw [ih i]
+      cases xs[i]? <;> rfl
+
+/-- the value-level edits of the generic layer ARE the typed model's edits of WebSocketData, TCP/UDP message lists
+    and DNS messages: the object graph of each class simulates the typed component edit (with `gobj_edit_simulates`) -/
+theorem ws_edit_is_generic (e : WsEdit) (s : List A × List WsMsg) :
+    wsOfState (e.toG.applyV s) = e.apply (wsOfState s) := by
+  obtain ⟨i, l⟩ := s
+  cases e with
+  | append m => rfl
+  | pop => rfl
+  | atom k a => rfl
+  | setContent j c => simp only [WsEdit.toG, GEdit.applyV, WsEdit.apply, wsOfState, modify_eq_set]; cases l[j]? <;> rfl
+  | drop j b => simp only [WsEdit.toG, GEdit.applyV, WsEdit.apply, wsOfState, modify_eq_set]; cases l[j]? <;> rfl
+
+theorem tmsg_edit_is_generic (e : TMsgEdit) (s : Unit × List TMsg) :
+    (e.toG.applyV s).2 = e.apply s.2 := by
+  obtain ⟨i, l⟩ := s
+  cases e with
+  | append m => rfl
+  | pop => rfl
+  | setContent j c => simp only [TMsgEdit.toG, GEdit.applyV, TMsgEdit.apply, modify_eq_set]; cases l[j]? <;> rfl
+  | setFc j b => simp only [TMsgEdit.toG, GEdit.applyV, TMsgEdit.apply, modify_eq_set]; cases l[j]? <;> rfl
+
+theorem dns_edit_is_generic (e : DnsEdit) (s : List A × List (List A)) :
+    dnsOfState (e.toG.applyV s) = e.apply (dnsOfState s) := by
+  obtain ⟨i, l⟩ := s
+  cases e with
+  | atom k a => rfl
+  | qappend q => rfl
+  | qclear => rfl
+  | qname j a => simp only [DnsEdit.toG, GEdit.applyV, DnsEdit.apply, dnsOfState, modify_eq_set]; cases l[j]? <;> rfl
+
 -- ---------------------------------------------------------------- non-vacuity (concrete store, V = Nat)
 private def σ0 : Store Nat := newFlow (empty 0) 7 true [10, 20, 30]
 private def ipx : Nat → Bool := fun j => j % 2 == 0
@@ -1375,6 +1596,15 @@ example : WfObj hO oO := ⟨by decide, fun ad had => by simp [oO] at had; subst 
 example : (let c := MsgObj.copy hO oO
            let r := applyObjs [.thset [0x74] [0x31], .hdel [0x78], .content (some [1,2])] c.1 oO
            (c.2.getState r.1 == oO.getState hO, r.2.getState r.1 == oO.getState hO)) = (true, false) := by decide
+-- generic object layer: a WebSocketData object with two message objects; copy; edits of the original in place and by
+-- append/pop/replace; the copy keeps the state of copy time; `WfG` holds of the example
+private def hG : GHeap WsMsg := { cells := fun a => ⟨a, true, [], 0, false, false⟩, next := 2 }
+private def oG : GObj (List A) := { imm := [0, 1000], subs := [0, 1] }
+example : WfG hG oG := ⟨by decide, by decide⟩
+example : (let c := GObj.copy hG oG
+           let r := applyGs [(WsEdit.setContent 0 [1]).toG, (WsEdit.append ⟨9, false, [], 0, false, false⟩).toG, WsEdit.pop.toG,
+                             (WsEdit.drop 1 true).toG, (WsEdit.atom 1 7).toG] c.1 oG
+           (decide (c.2.getState r.1 = oG.getState hG), decide (r.2.getState r.1 = oG.getState hG))) = (true, false) := by decide
 private def σt : Store Comp := newFlow (empty (.flag false)) 7 true
   [.conn [1], .conn [2], .err none, .flag false, .atom 0, .atom 0, .mdata [], .atom 0, .atom 0, .req m0, .resp none, .ws none]
 -- backup, header edit + response assignment + copy + edit of the copy, revert: original back, copy keeps its edits
